@@ -119,7 +119,8 @@ CODES = {1: "a persisted line's overall status is not Scheduler.Status of its no
          5: "a persisted line is not a state from which the final state is reachable",
          6: "a live answer does not carry the forced status running",
          7: "the live answers are not a chain of scheduler states",
-         8: "a live answer is not a state from which the final state is reachable"}
+         8: "a live answer is not a state from which the final state is reachable",
+         9: "a line follows the main thread's final status"}
 
 
 def check_inproc(ctx, cases, stats, coq_name="cases_c08", tool=None):
